@@ -256,6 +256,47 @@ pub mod vf {
 '''
 
 
+VF_HEAD_WASM = r'''
+#[allow(dead_code)]
+pub mod vf {
+    use diplomat_runtime::*;
+    use alloc::{format, string::{String, ToString}, vec::Vec, boxed::Box, collections::BTreeMap};
+    use core::sync::atomic::{AtomicU32, Ordering};
+
+    static NEXT_ID: AtomicU32 = AtomicU32::new(1);
+    static mut COUNTS: Option<BTreeMap<&'static str, usize>> = None;
+
+    pub fn log(s: String) { vfsupport::log(&s); }
+    pub fn next_id() -> u32 { NEXT_ID.fetch_add(1, Ordering::SeqCst) }
+    pub fn enter(name: &'static str, args: &[String]) -> usize {
+        let n = unsafe {
+            let m = (*core::ptr::addr_of_mut!(COUNTS)).get_or_insert_with(BTreeMap::new);
+            let e = m.entry(name).or_insert(0);
+            let n = *e; *e += 1; n
+        };
+        let mut s = format!("CALL {}#{}", name, n);
+        for a in args { s.push(' '); s.push_str(a); }
+        log(s);
+        n
+    }
+    pub fn exhausted(name: &str) -> ! {
+        log(format!("EXHAUSTED {}", name));
+        core::arch::wasm32::unreachable()
+    }
+'''
+
+WASM_PRELUDE = "use alloc::{format, string::{String, ToString}, vec::Vec, boxed::Box};\n"
+
+
+def vf_mod(target):
+    from spec import prim_bits
+    body = VF_MOD.replace("usize:16, isize:16", "usize:%d, isize:%d" % (prim_bits("usize") // 4, prim_bits("isize") // 4))
+    if target != "wasm":
+        return body
+    tail = body[body.index("    pub trait Canon"):]
+    return VF_HEAD_WASM + tail
+
+
 def canon_arg_expr(prog, name, t):
     """Rust expression (String) for the canonical form of parameter `name` of type t."""
     k = t[0]
@@ -476,9 +517,11 @@ def field_canon(expr, ft):
     return "vf::c(&%s)" % expr
 
 
-def emit_program(prog, bodies=False, crate_attrs=""):
+def emit_program(prog, bodies=False, crate_attrs="", target="host"):
     out = []
     out.append("#![allow(warnings)]\n")
+    if target == "wasm":
+        out.append("#![no_std]\nextern crate alloc;\nextern crate vfsupport;\n" + WASM_PRELUDE)
     out.append(crate_attrs)
     out.append(prog.prelude)
     for mod in prog.modules:
@@ -486,6 +529,8 @@ def emit_program(prog, bodies=False, crate_attrs=""):
         out.append(attrs_s(mod.attrs, ""))
         out.append("pub mod %s {\n" % mod.name)
         out.append("    use diplomat_runtime::{DiplomatStr, DiplomatStr16, DiplomatChar, DiplomatByte, DiplomatWrite, DiplomatOption, DiplomatResult, DiplomatSlice, DiplomatSliceMut, DiplomatStrSlice, DiplomatStr16Slice, DiplomatUtf8StrSlice};\n")
+        if target == "wasm":
+            out.append("    " + WASM_PRELUDE)
         for other in getattr(mod, "uses", []):
             out.append("    use %s;\n" % other)
         for t in mod.items:
@@ -494,7 +539,7 @@ def emit_program(prog, bodies=False, crate_attrs=""):
         out.append(mod.extra_src)
         out.append("}\n\n")
     if bodies:
-        out.append(VF_MOD)
+        out.append(vf_mod(target))
         out.append(canon_impls(prog))
     out.append(prog.epilogue)
     return "".join(out)
